@@ -170,6 +170,22 @@ CHECKS = {
         technique="Lean 4 proof over generated brackets + hand-modelled solver + bracket correspondence",
         design="6/C09",
     ),
+    "C18": dict(
+        text=("Theorem analyze_never_raises over a SECOND rendering of aggr.py / metrics/mean.py regenerated each run "
+              "(Gen/Safe.lean): the same statements in Except over tagged abstract numbers with UNINTERPRETED + - x, "
+              "comparisons, sqrt, exp and distributions, where only partiality is modelled (wrapper dispatch incl. the "
+              "plain-float/utils.Int leak, plain division by zero, math.sqrt of a negative, math.exp / ** overflow). For "
+              "every interpretation, configuration and pair of aggregates the analysis returns a result; every entry of "
+              "a + b is defined; plus the generated utils.div rule (x/0 = +inf for x>0 else NaN), exact values of the "
+              "well-defined fields, and non-negativity of the exact adjusted variance. Tie: translator, with the "
+              "dispatch semantics validated on the real Float/Int types; search: 11 degenerate families x 4 input "
+              "kinds x option cells on the real code."),
+        note=NOTE_COMMON + "Basic/Safe.lean (what can raise, how wrappedness propagates) is hand-written and validated "
+             "against the real types each run; scipy's frozen distributions are assumed not to raise; KeyError and the "
+             "back-end read are outside the theorem (searched).",
+        technique="Lean 4 proof over a generated exception-safety rendering + degenerate-data search",
+        design="6/C18",
+    ),
 }
 
 PENDING_REASON = "check not implemented yet in this round (see DESIGN.md section 6 for the planned model and theorems)"
